@@ -435,3 +435,9 @@ def command_of(key):
 class w_invalidate:
     self_shape = Obj(urwid.Widget, {})
     log_event = "_invalidate"
+
+
+@contract("urwid/canvas.py:CompositeCanvas.set_depends", property=(), assumed=True, notes="canvas protocol: cache dependencies only (C06)")
+class cc_set_depends:
+    self_shape = CCANVAS
+    modifies = ()
